@@ -21,7 +21,7 @@ var verbNumOf = map[string]int{"GET": 1, "POST": 2, "PUT": 3, "DELETE": 4, "PATC
 func urlCandidates(kind string) []string {
 	switch kind {
 	case "string":
-		return []string{"abc", "a%20b", "a+b", "%41", "%zz", "a%2Fb", "%C3%A9", "x.y", "..a", "%2E", "0"}
+		return []string{"abc", "a%20b", "a+b", "%41", "%zz", "a%2Fb", "%C3%A9", "x.y", "..a", "%2E", "0", "%2541", "50%2525", "x%252Fy", "%25", "%2520"}
 	case "bool":
 		return []string{"true", "false", "1", "0", "T", "yes", "TRUE", "tRuE", ""}
 	case "int32", "sint32", "sfixed32":
